@@ -21,8 +21,9 @@ RULE = (
     "submit_pending_jobs (instructions touching only frame-local state are skipped) and line "
     "granularity in the monitor loop; a timed wait may fire at any point. After the callers finish the "
     "clock runs on for stale_time + (jobs+3) intervals, then stop(). Thorough: every schedule with <= 2 "
-    "preemptions of a fixed 4-job stream plus Hypothesis-drawn streams/schedules (<= 4 preemptions); "
-    "quick: <= 1 preemption exhaustively on that stream plus Hypothesis. Oracle (the statement): on_error "
+    "preemptions of three fixed job streams (4 jobs one caller; 3 jobs two callers; 4 same-group jobs with "
+    "max 2 so that the put-back branch runs while another add arrives) plus Hypothesis-drawn streams/schedules (<= 4 preemptions); "
+    "quick: <= 1 preemption exhaustively on those streams plus Hypothesis. Oracle (the statement): on_error "
     "never called and no exception escapes a thread; every batch non-empty, homogeneous in (task, "
     "options), len <= max, len == 1 or len >= min; every added job in exactly one batch; finally "
     "num_pending == jobs added to the pool - jobs handed off. Non-trivial = a step of add_job executed "
@@ -260,7 +261,11 @@ STREAM4 = {"min": 2, "max": 2, "stale": 2.0, "interval": 1.0,
 
 STREAM2C = {"min": 2, "max": 2, "stale": 1.0, "interval": 1.0,
             "callers": [[["add", 0], ["sleep", 2.5], ["add", 1]], [["add", 0]]]}
-STREAMS = {"stream4": STREAM4, "two-callers": STREAM2C}
+# three same-group jobs with max 2 (the monitor submits two and puts one back) while a second caller's
+# add is still asleep (its timer may fire at any point)
+STREAMREM = {"min": 2, "max": 2, "stale": 1.0, "interval": 1.0,
+             "callers": [[["add", 0], ["add", 0], ["add", 0]], [["sleep", 5.0], ["add", 0]]]}
+STREAMS = {"stream4": STREAM4, "two-callers": STREAM2C, "remainder": STREAMREM}
 
 
 def stream_case(schedule: list, which: str = "stream4") -> dict:
@@ -307,7 +312,8 @@ def check(ctx: Ctx) -> None:
     if ctx.thorough:
         ctx.coverage_extra["exhaustive"] = True
         ctx.coverage_extra["exhaustive_scope"] = ("all schedules with <= 2 preemptions of the fixed job streams "
-                                                  "STREAM4 (one caller, 4 jobs) and STREAM2C (two callers, 3 jobs)")
+                                                  "STREAM4 (one caller, 4 jobs), STREAM2C (two callers, 3 jobs) and STREAMREM "
+                                                  "(two callers, 4 jobs of one group, max 2: the put-back branch)")
     ctx.given(gen_cases(), lambda c: check_case(ctx, c), ctx.n(2500, 32000))
 
 
